@@ -160,11 +160,14 @@ class Oracle:
     def designator(self):
         r = self.rng
         kind = r.choice(["vendor", "t10", "eui8", "eui12", "eui16", "naa2", "naa3", "naa5", "naa6", "relport", "tpg", "lug", "md5", "name"])
+        self.last_des_txt = None          # the designator in the Lean oracle's terms (Std.Des), when it is one of those
         if kind == "vendor":
             b = self.rbytes(r.choice([1, 4, 17]))
+            self.last_des_txt = "ty=i0,body=%s" % hx(b)
             return 0, b, {"vendor_specific": b}
         if kind == "t10":
             vid, rest = self.rbytes(8, True), self.rbytes(r.choice([0, 5, 16]), True)
+            self.last_des_txt = "ty=i1,vid=%s,rest=%s" % (hx(vid), hx(rest))
             return 1, vid + rest, {"t10_vendor_id": vid, "vendor_specific_id": rest}
         if kind == "eui8":
             cid, ext = self.rbytes(3), self.rbytes(5)
@@ -178,23 +181,29 @@ class Oracle:
         if kind.startswith("naa"):
             n = int(kind[3])
             v = self.vals(kind, {"naa": n})
+            self.last_des_txt = "ty=i3,code=i%d,v={%s}" % (n, ",".join("%s=i%d" % kv for kv in v.items()))
             return 3, self.enc(kind, v), dict(v)
         if kind in ("relport", "tpg", "lug"):
             blk = {"relport": "relport", "tpg": "tpgdes", "lug": "lugdes"}[kind]
             v = self.vals(blk)
+            self.last_des_txt = "ty=i%d,v={%s}" % ({"relport": 4, "tpg": 5, "lug": 6}[kind], ",".join("%s=i%d" % kv for kv in v.items()))
             return {"relport": 4, "tpg": 5, "lug": 6}[kind], self.enc(blk, v), dict(v)
         if kind == "md5":
             b = self.rbytes(16)
+            self.last_des_txt = "ty=i7,body=%s" % hx(b)
             return 7, b, {"md5_logical_identifier": b}
         s = self.rbytes(r.choice([4, 8, 23]), True)
         b = s + bytes((-len(s)) % 4 or 4)       # null-terminated, padded to a multiple of four
+        self.last_des_txt = "ty=i8,body=%s" % hx(b)
         return 8, b, {"scsi_name_string": b}
 
     def vpd_devid(self):
         body = b""
         descs = []
+        dtxt = []
         for _ in range(self.count()):
             ty, des, exp = self.designator()
+            des_txt = self.last_des_txt
             piv = self.rng.getrandbits(1)
             assoc = self.rng.choice([0, 1, 2])
             v = self.vals("designation_descriptor", {"designator_type": ty, "designator_length": len(des), "piv": piv, "association": assoc})
@@ -206,12 +215,21 @@ class Oracle:
             e["designator"] = exp
             descs.append(e)
             body += self.enc("designation_descriptor", v) + des
+            dtxt.append(None if des_txt is None else "{header={%s},%s}" % (",".join("%s=i%d" % kv for kv in v.items()), des_txt))
         if len(body) > 0xFFFF:
             return self.vpd_devid()
         v = self.vals("vpd_header", {"page_code": 0x83, "page_length": len(body)})
         e = self.report("vpd_header", v, drop=("page_length",))
         e["designator_descriptors"] = descs
-        return self.enc("vpd_header", v) + body, e
+        whole = self.enc("vpd_header", v) + body
+        if all(t is not None for t in dtxt):
+            # no EUI-64 designator: the whole page as the Lean oracle states it (Std.encVpd83, the encoder of
+            # C04.vpd_device_identification_decodes)
+            lean = self.stdenc("vpd83", "{header={%s},descs=[%s]}" % (",".join("%s=i%d" % kv for kv in v.items()), ",".join(dtxt)))
+            if lean != whole:
+                raise Infra("oracle inconsistency: Std.encVpd83 differs from the block-wise composition")
+            whole = lean
+        return whole, e
 
     # ------------------------------------------------------------------ MODE SENSE
     PAGES = [("mode_control", 0x0A, None, 12), ("mode_control_ext", 0x0A, 1, 32), ("mode_disconnect", 0x02, None, 16),
